@@ -33,6 +33,7 @@ func main() {
 	}
 	c.Verbose = *verbose
 	mon.WorkerInit(c)
+	c.StartWatchdog()
 	c.RunStreams(p, *only, *resume)
 	mon.WorkerFini(c)
 	c.Close()
